@@ -111,6 +111,20 @@ class Ranger:
                                 hi = (1 << kbits) - 1 if hi is None else min(hi, (1 << kbits) - 1)
                                 b = (lo, hi)
                                 continue
+            ns_ = None
+            if ce[0] == "discr" and isinstance(v, int) and v == 1:
+                ns_ = ce[1]
+            elif ce[0] == "bin" and ce[1] in ("Eq", "Ne") and isinstance(v, int) and ce[2][0] == "discr" and ce[3][0] == "int" and ce[3][1] in (0, 1):
+                if ((ce[1] == "Eq") == bool(v)) == (ce[3][1] == 1):
+                    ns_ = ce[2][1]          # `discr == 1` holds / `discr == 0` fails
+            if ns_ is not None and ns_[0] == "call" and ns_[1].endswith("BitBoard::next_square") and len(ns_[2]) == 1:
+                # `set.next_square()` gave Some: the set's bits are not all zero
+                S_ = ns_[2][0]
+                if e == ("field", S_, "0") or S_ == ("bb", e):
+                    lo, hi = b if b else (None, None)
+                    tr_ = type_range(self.type_of(e) or "u64") or (0, (1 << 64) - 1)
+                    b = (max(1, tr_[0] if lo is None else lo), tr_[1] if hi is None else hi)
+                    continue
             if e[0] == "len" and ce[0] == "isempty" and ce[1] == e[1] and isinstance(v, int):
                 lo, hi = b if b else (0, 64)
                 b = (0, 0) if v == 1 else (max(lo, 1), hi)
